@@ -74,6 +74,50 @@ def run(ck):
             fs[j] = flip(fs[j])
         return tuple(fs)
 
+    def near_all(kind, fields):
+        """Every single-field neighbour of `fields`: (tag, fields') differing from `fields` in EXACTLY one field of
+        the cap string -- each base32 field (first bit, last bit, one random bit), k, N, size (+-1 and the boundary
+        values k=1, k=N, N=k, N=255, size=0), LIT body (bit flip, one byte longer/shorter)."""
+        out = []
+
+        def put(tag, i, v):
+            if v != fields[i] and (not isinstance(v, int) or v >= 0):
+                fs = list(fields)
+                fs[i] = v
+                out.append((tag, tuple(fs)))
+        names = {"chk": ["key", "ueb", "k", "N", "size"], "lit": ["data"], "ssk": ["key", "fingerprint"],
+                 "mdmf": ["key", "fingerprint"]}[kind.shape]
+        for i, f in enumerate(fields):
+            nme = names[i]
+            if isinstance(f, int):
+                for tag, v in (("+1", f + 1), ("-1", f - 1)):
+                    put("%s%s" % (nme, tag), i, v)
+                if nme == "k":
+                    put("k=1", i, 1)
+                    put("k=N", i, fields[3])
+                elif nme == "N":
+                    put("N=k", i, fields[2])
+                    put("N=255", i, 255)
+                    put("N=256", i, 256)
+                else:
+                    put("size=0", i, 0)
+                    put("size=2^32", i, 2 ** 32)
+            else:
+                if f:
+                    put(nme + "-first-bit", i, bytes([f[0] ^ 0x80]) + f[1:])
+                    put(nme + "-last-bit", i, f[:-1] + bytes([f[-1] ^ 0x01]))
+                    put(nme + "-random-bit", i, flip(f))
+                if kind.shape == "lit":
+                    put("data-longer", i, f + b"\x00")
+                    put("data-shorter", i, f[:-1])
+                    put("data-empty", i, b"")
+        seen, uniq = set(), []
+        for tag, fs in out:
+            if fs not in seen:
+                seen.add(fs)
+                uniq.append((tag, fs))
+        return uniq
+
     nspec = 2 if ck.tier == "quick" else 5
     nm_shared = mk()
     nm_other = mk()
@@ -124,11 +168,30 @@ def run(ck):
             if kind.level == "v":
                 for nm, tag in ((nm_shared, "nm"), (nm_shared, "nm-again"), (nm_other, "nm2")):
                     add_node(nm.create_from_cap(s), L(kind.name + "/node-" + tag))
+                if j == 0:
+                    for tag, nf1 in near_all(kind, fields):
+                        add_cap(M.build(uri, kind, nf1), L(kind.name + "/neighbour-" + tag))
                 continue
             for nm, tag in ((nm_shared, "nm"), (nm_shared, "nm-again"), (nm_other, "nm2")):
                 add_node(nm.create_from_cap(s), L(kind.name + "/node-" + tag))
                 add_node(nm.create_from_cap(None, s), L(kind.name + "/node-roslot-" + tag))
             add_node(nm_shared.create_from_cap(M.fmt(kind, nf)), L(kind.name + "/node-near-miss"))
+            if j == 0 or kind.shape == "lit":
+                # systematic single-field neighbours, each wrapped in every node class that can hold it
+                for tag, nf1 in near_all(kind, fields):
+                    ck.hit("single-field-neighbour:" + kind.shape + ":" + tag.split("-")[0].split("+")[0].split("=")[0])
+                    nc = M.build(uri, kind, nf1)
+                    add_cap(nc, L(kind.name + "/neighbour-" + tag))
+                    add_node(nm_shared.create_from_cap(M.fmt(kind, nf1)), L(kind.name + "/node-neighbour-" + tag))
+                    fn1 = filenode_for(nc.get_filenode_cap() if kind.is_dir else nc)
+                    if kind.is_dir:
+                        add_node(DirectoryNode(fn1, nm_other, None), L(kind.name + "/dirnode-neighbour-" + tag))
+                    else:
+                        add_node(fn1, L(kind.name + "/filenode-neighbour-" + tag))
+                # the same fields under the sibling headers (SSK<->MDMF, DIR2 wrappers), as nodes too
+                for k2 in M.KINDS:
+                    if k2 is not kind and k2.shape == kind.shape and k2.level != "v":
+                        add_node(nm_shared.create_from_cap(M.fmt(k2, fields)), L(k2.name + "/node-same-fields-as-" + kind.name))
             for rep in ("direct", "direct-twin"):
                 fcap = a.get_filenode_cap() if kind.is_dir else a
                 fn = filenode_for(fcap)
@@ -237,6 +300,12 @@ def run(ck):
                 if ha != hb:
                     bad("equal-objects-hash-differently/" + definer(a, "__hash__"),
                         "%s: a == b but hash(a) != hash(b)" % x.cls, wit_of(x, y))
+                # what callers actually rely on: an equal object is found in a set / dict keyed by the other
+                ck.mon("equal-implies-set-and-dict-membership")
+                if not (b in {a}) or not (b in {a: 1}) or len({a, b}) != 1:
+                    bad("equal-objects-hash-differently/" + definer(a, "__hash__"),
+                        "%s: a == b but b is not found in {a} / {a: 1} (len({a, b}) = %d)" % (x.cls, len({a, b})),
+                        wit_of(x, y))
         ck.case("%s-%s" % (x.cat, y.cat), key=(x.label, y.label), nontrivial=a is not b,
                 sample={"a": x.label, "b": y.label, "eq": bool(eq), "ne": bool(ne)})
 
@@ -272,7 +341,11 @@ def run(ck):
         ck.violation(key, what, wit)
         ck.violations[key]["count"] = cnt
     ck.exhaustive = False
-    ck.require_monitor("ne-is-negation-of-eq", "eq-iff-cap-strings-equal", "equal-implies-equal-hash")
+    ck.require_monitor("ne-is-negation-of-eq", "eq-iff-cap-strings-equal", "equal-implies-equal-hash",
+                       "equal-implies-set-and-dict-membership")
+    ck.require_reach(*["single-field-neighbour:" + t for t in
+                       ("chk:key", "chk:ueb", "chk:k", "chk:N", "chk:size", "ssk:key", "ssk:fingerprint",
+                        "mdmf:key", "mdmf:fingerprint", "lit:data")])
     ck.require_reach(*["equal-twins:" + c for c in
                        ("ImmutableFileNode", "LiteralFileNode", "MutableFileNode", "DirectoryNode", "UnknownNode",
                         "CHKFileURI", "LiteralFileURI", "WriteableSSKFileURI", "ReadonlyMDMFFileURI",
@@ -288,6 +361,9 @@ def run(ck):
 #   5. _BaseURI.__eq__ compares storage index                -> eq-true-for-different-cap-strings/_BaseURI
 #   6. UnknownNode.__eq__ ignores rw_uri                     -> eq-true-for-different-cap-strings/UnknownNode
 #   7. _BaseURI.__ne__ returns False for foreign types       -> ne-not-negation-of-eq/_BaseURI
+#  10. seeded C43-6: ImmutableFileNode.__eq__ compares size/readkey/UEB hash only (caps differing in k or N only compare
+#      equal, hash differently)                               -> eq-true-for-different-cap-strings/ImmutableFileNode,
+#                                                                equal-objects-hash-differently/ImmutableFileNode
 #   8. LiteralFileNode equality on data length               -> eq-true-for-different-cap-strings/_ImmutableFileNodeBase
 #   9. ImmutableFileNode.__eq__ = identity                   -> eq-false-for-equal-cap-strings/ImmutableFileNode
 # Fix validation: with ImmutableFileNode.__ne__ = "not self == other" and value __eq__/__ne__/__hash__ on DirectoryNode
